@@ -118,9 +118,15 @@ TInit == /\ tid \in 1..Len(Traces)
 TStep == /\ l <= Len(T.h)
          /\ LET c == T.h[l]
                 d == Decode(T.d[l], T.dp, T.de)
+                \* variant 2: every composite function is a new object at each call (formed at the call site): it has no
+                \* memory of its own samples; its terms keep theirs
+                pre == IF T.variant = 2
+                       THEN [obs EXCEPT !.S = [f \in 1..NF |-> IF FT[f].kind = "sum" THEN <<>> ELSE obs.S[f]],
+                                        !.C = [f \in 1..NF |-> IF FT[f].kind = "sum" THEN <<>> ELSE obs.C[f]]]
+                       ELSE obs
                 cl == IF Bogus(c) THEN (IF d.exc = "ValueError" THEN {} ELSE {"raises"})
                       ELSE IF ~ArgsOK(c, olast) THEN {"skipped"}
-                      ELSE Compare(obs, Apply(c, obs, olast), d)
+                      ELSE Compare(pre, Apply(c, pre, olast), d)
             IN /\ bad' = bad \cup {<<l, c.step, c.opt, x>> : x \in cl}
                /\ obs' = [obs EXCEPT !.np = d.np, !.ne = d.ne,
                                      !.S = [f \in 1..NF |-> obs.S[f] \o d.ns[f]],
